@@ -15,7 +15,7 @@
    compiled descriptor on every run) supplies the NRI instance.  No proofs in this file. *)
 From Coq Require Import String Ascii List Bool ZArith NArith.
 Import ListNotations.
-Open Scope N_scope.
+Local Open Scope N_scope.
 
 (* ------------------------------------------------------------------ bytes *)
 
